@@ -4,7 +4,7 @@ import itertools
 from symnp import core
 from symnp.core import band, bor, bnot, iff, implies, sabs, ssqrt
 from symnp.hapi import PreconditionFailed
-from .common import x_patterns, POOL, slice_points, LM_CYCLE
+from .common import x_patterns, POOL, slice_points, LM_CYCLE, LM_CYCLE13
 
 PROPERTY = 'C09'
 FUNCTIONS = ['curvature.knee', 'dfdt.knee', 'dfdt.get_knee', 'dfdt.get_knee_gradient', 'menger.knee', 'menger.menger_curvature', 'lmethod.knee', 'lmethod.get_knee',
@@ -16,7 +16,7 @@ BOUNDS = dict(quick='optimum: curvature / Menger n = 3..6, L-method n = 5..7 (fi
               thorough='optimum: n <= 7 (L-method 8, DFDT 6), 4 spacing patterns; refinement loop n <= 24')
 ASSUMPTIONS = ['exact real arithmetic (T1)', 'x strictly increasing (concrete patterns)', 'ISODATA is executed as written (eps = 1e-6, max_iter = 100)',
                'criterion values are recomputed from the same primitive operations (cfd/csd, menger_curvature, residual sums); what is independent is the search: range, offsets, tie rule']
-CONFIG = dict(quick=dict(budget_s=170, case_wall_s=140, qtimeout_ms=8000), thorough=dict(budget_s=1750, case_wall_s=1500, qtimeout_ms=60000))
+CONFIG = dict(quick=dict(budget_s=170, case_wall_s=140, qtimeout_ms=8000), thorough=dict(budget_s=900, case_wall_s=700, qtimeout_ms=60000))
 
 
 def cases(tier, seed):
@@ -39,6 +39,7 @@ def cases(tier, seed):
     for it in ('original', 'adjusted'):
         for limit in (3, 10):
             out.append(dict(fn='refine_slice', pos=[11], it=it, limit=limit, step_limit=400, replay_timeout_s=10, nra_at_decide=False))
+            out.append(dict(fn='refine_slice', curve13=True, pos=[12], it=it, limit=limit, step_limit=400, replay_timeout_s=10, nra_at_decide=False))
     for n in range(5, (14 if q else 25)):
         for it in ('none', 'original', 'adjusted'):
             for limit in (3, 5, 10):
@@ -87,7 +88,7 @@ def run(h, case):
         return int(k)
     if fn == 'refine_slice':
         lm = L.lmethod
-        X, Y = slice_points(h, LM_CYCLE, case['pos'])
+        X, Y = slice_points(h, LM_CYCLE13 if case.get('curve13') else LM_CYCLE, case['pos'])
         pts = h.argument(h.array([[a, b] for a, b in zip(X, Y)]))
         calls = [0]
         if h.sym:
